@@ -179,3 +179,23 @@ pub fn evalhex_line(l: &str) -> String {
     }
     outs.join(",")
 }
+
+static ROLL_VALUE: std::sync::atomic::AtomicU32 = std::sync::atomic::AtomicU32::new(0);
+fn fixed_rng() -> u32 {
+    ROLL_VALUE.load(std::sync::atomic::Ordering::SeqCst)
+}
+
+/// Stream `roll`: `<u32> <expression>` evaluated with a random source that returns exactly that value.
+pub fn roll_line(l: &str) -> String {
+    let Some((r, src)) = l.trim().split_once(' ') else { return "bad-op".into() };
+    let Ok(r) = r.parse::<u32>() else { return "bad-op".into() };
+    ROLL_VALUE.store(r, std::sync::atomic::Ordering::SeqCst);
+    let mut c = fend_core::Context::new();
+    c.set_random_u32_fn(fixed_rng);
+    let int = Counting::never();
+    match guarded(|| fend_core::evaluate_with_interrupt(src, &mut c, &int)) {
+        Ok(Ok(v)) => format!("ok {}", v.get_main_result().replace('\n', "\\n")),
+        Ok(Err(e)) => format!("err {}", e.replace('\n', "\\n")),
+        Err(p) => format!("panic {}", p.replace('\n', "\\n")),
+    }
+}
